@@ -135,6 +135,10 @@ func Harness_app_settings() {
 		tt, perr := time.Parse(want["date-format"], today)
 		verifAssert("today:read-with-effective-date-format", perr == nil && o.GlobalConfig.Now.Equal(tt))
 	}
+	if !withToday {
+		// without --today the current date is the clock's, whatever else was loaded
+		verifAssert("today:defaults-to-the-clock", !o.GlobalConfig.Now.IsZero())
+	}
 	verifAssert("print-layout=parse-layout", o.ReporterConfig.DateFormat == o.GlobalConfig.DateFormat)
 }
 
@@ -443,4 +447,58 @@ func Harness_app_compose() {
 	verifCover("composed")
 	verifAssert("compose-runs-ok", e12 == nil && e1 == nil && e2 == nil)
 	verifAssert("report(log1++log2)=report(log1)++report(log2)", o12 == o1+o2)
+}
+
+// Harness_main_exit_status: the program's own main() - GetApp().Run(os.Args), log.Fatal, the
+// exit status - for every report command with a healthy standard output, /dev/full and a
+// closed pipe, and for malformed and unreadable input: the exit status is 0 exactly when the
+// whole report was written and the input was read completely and is well formed.
+func Harness_main_exit_status() {
+	ci := verifBound("command", -1)
+	if ci < 0 {
+		ci = verifChoose("command", len(hFileCmds)+1)
+	}
+	// 0 all well; 1 stdout is a full device; 2 stdout is a closed pipe; 3 malformed line in the
+	// file(s) the command reads; 4 the file(s) it reads are directories
+	scen := verifChoose("scenario", 5)
+	verifLabel("scenario", []string{"healthy", "stdout-full-device", "stdout-closed-pipe", "malformed-input", "unreadable-input"}[scen])
+	logText, dbText := hAppLog, hAppDB
+	if scen == 3 {
+		logText = "2021/01/01:\n  f1: 2\n  x: 1x\n"
+		dbText = "f0:\n  x:2\n"
+	}
+	logName, dbName := "", ""
+	if scen == 4 {
+		logName, dbName = verifDir("log"), verifDir("db")
+	} else {
+		logName, dbName = verifFile("log", logText), verifFile("db", dbText)
+	}
+	args := []string{"hranoprovod-cli"}
+	if ci == len(hFileCmds) {
+		verifLabel("site", "lint")
+		args = append(args, "lint", logName)
+	} else {
+		verifLabel("site", hFileCmds[ci].name)
+		args = append(append(args, "--logfile="+logName, "--database="+dbName), hFileCmds[ci].args...)
+	}
+	kind := 0
+	if scen == 1 || scen == 2 {
+		kind = scen
+	}
+	code := verifMain(kind, args)
+	verifCover("ran")
+	switch scen {
+	case 0:
+		verifAssert("exit-0-on-success", code == 0)
+	case 1, 2:
+		verifAssert("lost-output-is-nonzero-exit", code != 0)
+	case 3:
+		// lint's own contract is to print the malformed lines; whether its exit status then
+		// is non-zero is not stated by the property and not asserted here
+		if ci != len(hFileCmds) {
+			verifAssert("malformed-input-is-nonzero-exit", code != 0)
+		}
+	case 4:
+		verifAssert("unreadable-input-is-nonzero-exit", code != 0)
+	}
 }
